@@ -8,6 +8,6 @@ var stdAssumptions = []string{
 	"go/packages + go/ssa v0.29.0 translate /repo's current sources faithfully (front end)",
 	"symgo's semantics for the executed SSA instruction kinds and Go's run-time checks (every explored path is re-run natively on its solver model and must agree)",
 	"std functions are modelled, not interpreted: errors.New, fmt.Sprintf (%s %d %c %v), strings.{HasPrefix,HasSuffix,Replace,SplitN,ToLower(ASCII),Repeat}, bytes.{Equal,HasPrefix,HasSuffix,Repeat}, strconv.{ParseInt,ParseUint,Atoi,Itoa,FormatInt,Quote(ASCII)}, io.WriteString",
-	"any other exported function of strings, bytes, strconv, unicode, unicode/utf8, math/bits over strings, byte slices, integers and bools (none is called by the unchanged tree) is executed natively on concrete arguments; at most one symbolic byte in its arguments is concretised by forking over its feasible values, more end the path as inconclusive",
+	"any other exported function of strings, bytes, strconv, unicode, unicode/utf8, math/bits over strings, byte slices, integers and bools (none is called by the unchanged tree) is executed natively on concrete arguments; at most one symbolic byte in its arguments is concretised by forking over its feasible values, more end the path as inconclusive; sort.Slice/SliceStable/SliceIsSorted/Ints/Strings are modelled as an in-place stable insertion sort that calls the less closure through the interpreter; bytes.Buffer is interpreted from its SSA body",
 	"constraints over one 8-bit variable are decided by exact evaluation over its 256-value domain; everything else and every final path condition is decided by z3 4.8.12",
 }
